@@ -201,6 +201,23 @@ func c12Decode(c *mc.Ctx, h *ref.PESHdr, what string, public bool) {
 		return
 	}
 	check(d, err, "parsePESData")
+	// the same packet cut short: PES_packet_length announces more bytes than there are. Whatever is done with it
+	// (an error, nothing), a PES delivered without error carries exactly the announced number of bytes
+	if ref.HasOptHeader(h.StreamID) {
+		for _, cut := range []int{1, len(payload) / 2, len(payload) - 1} {
+			var d2 *astits.PESData
+			var err2 error
+			if p := mc.Catch(func() { d2, err2 = astits.VerifParsePESData(b[:len(b)-cut]) }); p != nil {
+				c.Rep.Report("decode-panic:"+fieldOf(what), det(fmt.Sprintf("packet cut by %d bytes: %v", cut, p)))
+				break
+			}
+			if err2 == nil && d2 != nil && len(d2.Data) != len(payload) {
+				c.Rep.Report("payload-boundary:bounded-packet-cut-short-accepted", det(fmt.Sprintf("PES_packet_length announces %d payload bytes, the packet is cut by %d bytes and is delivered without error with %d payload bytes", len(payload), cut, len(d2.Data))))
+				break
+			}
+		}
+		c.Ev.Class("bounded-packet-cut-short", 1)
+	}
 	if public {
 		cc := uint8(3)
 		ps := Packetize(SUnit{PID: 0x100, Bytes: b}, nil, &cc, false)
@@ -516,7 +533,7 @@ func checkC12(c *mc.Ctx) {
 		}
 	}
 	c.Ev.AddScenario(mc.Scenario{Name: "Duration(): base alphabet x all 512 extensions", SpaceSize: int64(len(ts33Alpha)) * 512, Executed: int64(len(ts33Alpha)) * 512, Exhaustive: true})
-	c.Ev.Require("stream-id-without-optional-header", "payload-boundary", "leftover-behind-cleared-flag", "leftover-optional-header-on-headerless-id")
+	c.Ev.Require("stream-id-without-optional-header", "payload-boundary", "leftover-behind-cleared-flag", "leftover-optional-header-on-headerless-id", "bounded-packet-cut-short")
 }
 
 func dataOf(d *astits.PESData) []byte {
